@@ -186,7 +186,7 @@ func exec(t *testing.T, s Script) *vstat.Violation {
 				if !closed() {
 					time.Sleep(10 * idle)
 					rig.Wait()
-					viol = vstat.Violf("idle-"+protoName(proto)+"|not-closed-after-idle-timeout", "%s: idle for %v (idle timeout %v), still open (closed after 10x more: %v)", desc, time.Since(from), idle, closed())
+					viol = vstat.Violf("idle-"+protoName(proto)+"|not-closed-after-idle-timeout", "%s: idle for %v (idle timeout %v), still open (closed after 10x more: %v)\ngoroutines:\n%s", desc, time.Since(from), idle, closed(), strings.Join(rig.BubbleGoroutines(), "\n"))
 					return false
 				}
 				o.run.Finish()
